@@ -170,11 +170,12 @@ class Worker:
                 self.kill(); self.restarts += 1; self.start()
                 return {'inconclusive': 'wall-clock watchdog'}
 
-def run_vtruth(args, profile='dev', cwd=None, timeout=120):
+def run_vtruth(args, profile='dev', cwd=None, timeout=120, limit=True):
     """Run the real CLI as a process.  Returns (returncode, stdout bytes, stderr text)."""
     try:
+        # (without preexec_fn python can vfork/posix_spawn, which is several times cheaper: used by the process-heavy C19)
         p = subprocess.run([bin_path('vtruth', profile)] + list(args), env=CHILD_ENV, cwd=cwd, stdout=subprocess.PIPE,
-                           stderr=subprocess.PIPE, timeout=timeout, preexec_fn=_limit_child)
+                           stderr=subprocess.PIPE, timeout=timeout, preexec_fn=_limit_child if limit else None)
         return p.returncode, p.stdout, p.stderr.decode('utf-8', 'replace')
     except subprocess.TimeoutExpired:
         return None, b'', 'TIMEOUT'
